@@ -6,7 +6,7 @@
    repeated-property consistency): the former _refuted theorems are gone, the statements below are at
    full strength over the models of the repaired code. *)
 From Coq Require Import List ZArith NArith Bool.
-From Scalibr Require Import Writers.GoBytes Writers.PomProps Writers.PkgJson Writers.PomWriter Writers.Proofs.
+From Scalibr Require Import Writers.GoBytes Writers.PomProps Writers.PkgJson Writers.PomDecl Writers.PomWriter Writers.Proofs.
 Import ListNotations.
 Open Scope N_scope.
 
@@ -156,10 +156,91 @@ Example pkgjson_example :
 Proof. vm_compute. repeat split; try reflexivity. discriminate. Qed.
 
 (* ================================================================== pom.xml writer *)
-(* Only the panic behaviour of Write is modelled (PomWriter.v): Write panics iff one of the
-   generatePropertyPatches calls of buildPatches panics -- which, since the fix, is never. The token-level
-   rewrite and the origin selection of buildPatches are decided by the harness's round-trip oracle;
-   pom_no_updates_identity / pom_tokens_preserved are NOT proved. *)
+(* Modelled at the level of declarations (PomDecl.v): a chain of poms (project + local parents), each a
+   list of version declarations (origin string as the Go code builds it, dependency key, version text)
+   and property definitions; buildPatches with OriginalDependency (first declaration by key),
+   parentPathFromOrigin, the property-vs-literal decision through generate_property_patches, the property
+   origin and preset rules; and the effect of the patches on every declaration and property.
+   The spec is stated independently: the EFFECTIVE version of a declaration (its ${placeholders} resolved
+   with the properties of its own profile, then the project-level properties, closest descendant first)
+   becomes VersionTo for exactly the addressed declarations and stays what it was for all others.
+
+   What remains with the harness's token-level oracle ONLY (not modelled, not proved): that everything
+   around those texts survives as the same XML token sequence -- element order, attributes, namespaces,
+   whitespace and other text, comments (incl. a comment inside <version>), processing instructions, CDATA
+   re-encoding -- and the shape of the inserted dependencyManagement block. *)
+
 Theorem pom_write_never_panics : forall pairs, write_panics pairs = false.
 Proof. exact write_never_panics. Qed.
 Print Assumptions pom_write_never_panics.
+
+(* no updates: no declaration and no property changes (every chain) *)
+Theorem pom_decl_no_updates_identity : forall c, write_chain c [] = Some c.
+Proof. exact write_chain_nil. Qed.
+Print Assumptions pom_decl_no_updates_identity.
+
+(* Exactness on D_lit: any chain that is well-formed (chain_wf: what pom files can give), any number of
+   updates with pairwise different keys, each addressed to the ONE declaration of its key in the whole
+   chain (in the project, a profile, dependencyManagement, a plugin, a parent, a profile of a parent...),
+   declared version and VersionTo without ${...}: Write succeeds and exactly the addressed declarations
+   stand for VersionTo afterwards. *)
+Theorem pom_decl_write_exact_on_D : forall c ups,
+  d_lit c ups = true ->
+  exists c', write_chain c ups = Some c' /\ decl_spec_ok c ups c' = true.
+Proof. exact pom_decl_write_exact_on_D_lemma. Qed.
+Print Assumptions pom_decl_write_exact_on_D.
+
+(* The full statement (every update addressed to an existing declaration) is refuted three ways. *)
+Definition kA : bytes := [103;58;97;124;106;97;114;124].    (* g:a|jar| *)
+Definition kB : bytes := [103;58;98;124;106;97;114;124].    (* g:b|jar| *)
+Definition dcl (o k v : bytes) : decl := {| dl_origin := o; dl_key := k; dl_ver := v; dl_listed := true |}.
+Definition refuted_shape (c : chain) (u : pupd) : Prop :=
+  chain_wf c = true /\ addressed_decl c u = true /\
+  exists c', write_chain c [u] = Some c' /\ decl_spec_ok c [u] c' = false.
+
+(* (1) origin ignored, the first declaration by key wins: <dependencies> g:a 1.0 and
+   <dependencyManagement> g:a 2.0; the update addressed to the managed declaration rewrites the other one. *)
+Theorem pom_origin_ignored_refuted :
+  refuted_shape [ {| pm_path := [112]; pm_props := [];
+                     pm_decls := [dcl [] kA [49;46;48]; dcl MANAGEMENT kA [50;46;48]] |} ]
+                {| pu_key := kA; pu_to := [50;46;53]; pu_pom := 0; pu_origin := MANAGEMENT |}.
+Proof. unfold refuted_shape. repeat split; try (vm_compute; reflexivity). eexists. split; vm_compute; reflexivity. Qed.
+Print Assumptions pom_origin_ignored_refuted.
+
+(* (2) shared property: g:a and g:b both ${v}; updating g:a rewrites v and g:b follows. *)
+Theorem pom_shared_property_refuted :
+  refuted_shape [ {| pm_path := [112]; pm_props := [ {| pf_origin := []; pf_name := [118]; pf_val := [49;46;48] |} ];
+                     pm_decls := [dcl [] kA [36;123;118;125]; dcl [] kB [36;123;118;125]] |} ]
+                {| pu_key := kA; pu_to := [50;46;48]; pu_pom := 0; pu_origin := [] |}.
+Proof. unfold refuted_shape. repeat split; try (vm_compute; reflexivity). eexists. split; vm_compute; reflexivity. Qed.
+Print Assumptions pom_shared_property_refuted.
+
+(* (3) the property in effect is defined in another pom: child g:a ${v}, v defined in the local parent only;
+   the patch is filed under the child's <properties>, nothing changes, Write succeeds. *)
+Theorem pom_property_in_parent_refuted :
+  refuted_shape [ {| pm_path := [99]; pm_props := []; pm_decls := [dcl [] kA [36;123;118;125]] |};
+                  {| pm_path := [112]; pm_props := [ {| pf_origin := []; pf_name := [118]; pf_val := [49;46;48] |} ]; pm_decls := [] |} ]
+                {| pu_key := kA; pu_to := [49;46;49]; pu_pom := 0; pu_origin := [] |}.
+Proof. unfold refuted_shape. repeat split; try (vm_compute; reflexivity). eexists. split; vm_compute; reflexivity. Qed.
+Print Assumptions pom_property_in_parent_refuted.
+
+(* non-vacuity of D_lit: a child and its parent; the key g:b is declared once, in profile p1 of the PARENT
+   (the case the separator fix repaired), g:a once in the child's dependencyManagement (and, without a
+   version, in its dependencies); both are updated *)
+Definition ex_chain : chain :=
+  [ {| pm_path := [99]; pm_props := [ {| pf_origin := []; pf_name := [118]; pf_val := [55] |} ];
+       pm_decls := [dcl PARENT [103;58;112;124;112;111;109;124] [49]; dcl [] kA []; dcl MANAGEMENT kA [49;46;48];
+                    dcl [] [103;58;99;124;106;97;114;124] [36;123;118;125]] |};
+    {| pm_path := [112]; pm_props := [];
+       pm_decls := [dcl (PROFILE ++ [64;112;49]) kB [52;46;49;50]] |} ].
+Definition ex_pups : list pupd :=
+  [ {| pu_key := kB; pu_to := [52;46;49;51]; pu_pom := 1; pu_origin := PROFILE ++ [64;112;49] |};
+    {| pu_key := kA; pu_to := [49;46;49]; pu_pom := 0; pu_origin := MANAGEMENT |} ].
+
+Example pom_decl_example :
+  d_lit ex_chain ex_pups = true /\
+  (exists c', write_chain ex_chain ex_pups = Some c' /\ chain_eqb c' ex_chain = false /\
+              eff_all c' = [(0%nat, PARENT, [103;58;112;124;112;111;109;124], [49]); (0%nat, [], kA, []);
+                            (0%nat, MANAGEMENT, kA, [49;46;49]); (0%nat, [], [103;58;99;124;106;97;114;124], [55]);
+                            (1%nat, PROFILE ++ [64;112;49], kB, [52;46;49;51])]).
+Proof. split; [vm_compute; reflexivity|]. eexists. split; [vm_compute; reflexivity|]. split; vm_compute; reflexivity. Qed.
